@@ -364,6 +364,140 @@ def indent_count_ob(mp, log_dir, tier="quick"):
 
 
 
+def scan_layout_ob(mp, log_dir, tier="quick"):
+    statement = ("Lexer::scan_token, one step from an arbitrary layout state (pending dedents, at_line_start, bracket depth all symbolic) on the next N symbolic characters: a pending "
+                 "dedent is emitted alone and consumes nothing; at line start only handle_indentation runs; otherwise, after spaces and tabs, a line feed emits exactly one NEWLINE and "
+                 "sets at_line_start iff the bracket depth is 0 (inside brackets it emits nothing and changes nothing), a carriage return emits nothing, a comment emits nothing and "
+                 "stops BEFORE its line feed (so a trailing comment never swallows the NEWLINE), opening brackets add 1 to the depth and closing brackets subtract 1 from a positive depth")
+
+    def run():
+        import parse_props as pp
+        t0 = time.time()
+        P, R = pp.load()
+        fs = [v for k, v in P.fns.items() if k.endswith("::scan_token")]
+        if len(fs) != 1:
+            raise Inconclusive("Lexer::scan_token not found in the MIR dump")
+        f = fs[0]
+        td = R.resolve("lexer::Lexer")
+        names = [x[0] for x in td.variants[0][1]] if td else []
+        if not all(n_ in names for n_ in ("indent_stack", "pending_dedents", "at_line_start", "bracket_depth", "tokens", "errors")):
+            raise Inconclusive("Lexer no longer has the fields of the layout state")
+        N = 2 if tier == "quick" else 3
+        ex = mirx.make_executor(P, R, max_paths=2000000)
+        ex.opaque_calls = mirx.slice_opaque
+        ex.model_sequences = True
+        ex.model_vecs = True
+        ex.seq_bound = 3
+        ex.tolerate_unsupported = True
+        ex.max_steps = 40000
+        ex.loop_bound = N + 2
+        ex.char_consts_as_int = True
+        ex.summarize = (r"Token::new$", r"Span::new$", r"CompileError::new$", r"fmt::", r"^format$", r"Arguments", r"must_use", r"to_string$",
+                        r"^Lexer::<'_>::(?!open_bracket$|close_bracket$)\w+$", r"<impl Lexer<'_>>::\w+$")
+        chars = [ex.sym_value("u32", f"ch{k}") for k in range(N)]
+        ex.enc.side += [f"(and (<= 0 {c.term}) (<= {c.term} 1114111))" for c in chars]
+        ex.state_intrinsics = {**_char_stream(chars), **_vec_intrinsics(), **dict(mirx.STATE_INTRINSICS)}
+        pd, bd, als = ex.sym_value("usize", "pd"), ex.sym_value("usize", "bd"), ex.enc.bool_var("als")
+        known = {"indent_stack": Adt("Vec", "lit", [S("int", "0", 64, False)]), "pending_dedents": pd, "at_line_start": als, "tokens": Adt("Vec", "lit", []),
+                 "errors": Adt("Vec", "lit", []), "current_pos": ex.sym_value("usize", "pos"), "bracket_depth": bd}
+        st0 = symex.State()
+        st0.store[0] = {"_self": Adt("Lexer", None, [(n_, known.get(n_, Opaque(n_))) for n_ in names])}
+        ex.call_stack = [f.name]
+        try:
+            outs = ex._run(f, [symex.Ref(0, Place("_self"))], {}, 0, st0)
+        except (Unsupported, symex.PathExplosion) as x:
+            raise Inconclusive(f"scan_token is not executable by the model: {str(x)[:160]}")
+        finally:
+            ex.call_stack = []
+        cs = [c.term for c in chars]
+        # ---- reference: skip spaces / tabs, then classify the first other character
+        OPEN, CLOSE = (40, 91, 123), (41, 93, 125)
+
+        def nlp(k):
+            return str(N) if k == N else f"(ite (= {cs[k]} 10) {k} {nlp(k + 1)})"
+
+        def ref(k):
+            """(class, consumed): 0 end of input, 1 line feed, 2 CR, 3 comment, 4 open, 5 close, 6 anything else"""
+            if k == N:
+                return "0", str(N)
+            c = cs[k]
+            r_ = ref(k + 1)
+            isop = "(or " + " ".join(f"(= {c} {x})" for x in OPEN) + ")"
+            iscl = "(or " + " ".join(f"(= {c} {x})" for x in CLOSE) + ")"
+            cls = f"(ite (or (= {c} 32) (= {c} 9)) {r_[0]} (ite (= {c} 10) 1 (ite (= {c} 13) 2 (ite (= {c} 35) 3 (ite {isop} 4 (ite {iscl} 5 6))))))"
+            con = f"(ite (or (= {c} 32) (= {c} 9)) {r_[1]} (ite (= {c} 35) {nlp(k)} {k + 1}))"
+            return cls, con
+        rc, rn = ref(0)
+        prefix = mp.smt_lines(ex, []) + ["(declare-const rcls Int)", "(declare-const rcon Int)", f"(assert (= rcls {rc}))", f"(assert (= rcon {rn}))"]
+        feas = solver.check_many(prefix, [[symex.conj(o.pc)] for o in outs], "z3", 600)
+        queries, npaths, bad, qs, meta = len(outs), 0, [], [], []
+        for o, fz in zip(outs, feas):
+            if fz == "unsat":
+                continue
+            npaths += 1
+            if o.kind != "return":
+                # arithmetic overflow of the bracket depth at usize::MAX is not a layout question
+                if "overflow" in str(o.info):
+                    continue
+                # a path the model cannot follow is acceptable only in the arms of non-layout characters, about which nothing is claimed
+                qs.append([symex.conj(list(o.pc) + ["(not (and (= pd 0) (not als) (= rcls 6)))"])])
+                meta.append(f"{o.kind}: {str(o.info)[:120]}")
+                continue
+            fsd = dict(o.state.store[0]["_self"].fields)
+            toks = tuple((re.search(r"TokenKind::(\w+)", " ".join(e[1])) or [None, "?"])[1] for e in o.state.events if e[0].endswith("Token::new"))
+            calls = tuple(e[0].split("::")[-1] for e in o.state.events if "Lexer" in e[0])
+            nerr = len(fsd["errors"].fields)
+            pd2, bd2, als2, k_ = fsd["pending_dedents"].term, fsd["bracket_depth"].term, fsd["at_line_start"].term, _cursor(o.state)
+            out = (toks, calls, nerr, pd2, bd2, als2, k_)
+            same = f"(and (= {pd2} pd) (= {bd2} bd) (= {als2} als))"
+            nothing = "true" if (not toks and not calls and nerr == 0) else "false"
+            A = f"(and (= {pd2} (- pd 1)) (= {bd2} bd) (= {als2} als) {'true' if (toks == ('Dedent',) and not calls and nerr == 0 and k_ == 0) else 'false'})"
+            B = f"(and {same} {'true' if (not toks and calls == ('handle_indentation',) and nerr == 0 and k_ == 0) else 'false'})"
+            lf_in = f"(and {same} {nothing})"
+            lf_out = f"(and (= {pd2} pd) (= {bd2} bd) (= {als2} true) {'true' if (toks == ('Newline',) and not calls and nerr == 0) else 'false'})"
+            quiet = f"(and {same} {nothing})"
+            op = f"(and (= {pd2} pd) (= {bd2} (+ bd 1)) (= {als2} als) {'true' if (not toks and calls == ('add_punct',) and nerr == 0) else 'false'})"
+            cl = (f"(and (= {pd2} pd) (= {als2} als) {'true' if (not toks and calls == ('add_punct',)) else 'false'} "
+                  f"(=> (> bd 0) (and (= {bd2} (- bd 1)) {'true' if nerr == 0 else 'false'})))")     # an unmatched closing bracket is not a valid source file: no claim at depth 0
+            C = (f"(and (=> (not (= rcls 6)) (= rcon {k_})) (=> (= rcls 0) {quiet}) (=> (= rcls 1) (ite (> bd 0) {lf_in} {lf_out})) (=> (= rcls 2) {quiet}) (=> (= rcls 3) {quiet}) "
+                 f"(=> (= rcls 4) {op}) (=> (= rcls 5) {cl}))")
+            goal = f"(ite (> pd 0) {A} (ite als {B} {C}))"
+            qs.append([symex.conj(list(o.pc) + [symex.neg(goal)])])
+            meta.append(out)
+        verd = solver.check_many(prefix, qs, "z3", 600) if qs else []
+        queries += len(qs)
+        for out, v_ in zip(meta, verd):
+            if v_ != "unsat" and isinstance(out, str):
+                bad.append(f"a layout step is not executable by the model: {out}")
+            elif v_ != "unsat":
+                bad.append(f"outcome (tokens, calls, errors, pending', depth', at_line_start', consumed) = {out} is not the reference's [{v_}]")
+        r = {"id": "X-scan_layout", "engine": "E2-X mirsmt", "statement": statement,
+             "bound": f"one call of scan_token; the next N = {N} characters are symbolic scalar values, then the input ends; pending_dedents, bracket_depth and at_line_start symbolic; "
+                      "every token scanner other than open_bracket / close_bracket (operator, add_op, add_punct, scan_string, scan_number, identifier ..) and handle_indentation are "
+                      "summarised as events: no claim is made about non-layout characters; peek / advance / is_at_end are the character-stream stand-in",
+             "functions_encoded": sorted(x + " (MIR)" for x in ex.encoded), "paths": npaths, "queries": queries, "wall_s": round(time.time() - t0, 2)}
+        if npaths == 0 and not bad:
+            r.update(status="inconclusive", reason="no feasible path explored")
+            return r
+        r["vacuity_ok"] = True
+        if not bad:
+            r.update(status="held", solver=f"{queries} z3 queries: every layout step is the reference's")
+            return r
+        why = "; ".join(bad[:4])
+        broken, textn = layout_native(log_dir)
+        r["native"] = textn[:500]
+        if broken:
+            os.makedirs(os.path.join(common.REPLAYS_DIR, "MIRX"), exist_ok=True)
+            rp = os.path.join(common.REPLAYS_DIR, "MIRX", "X-scan_layout.replay")
+            open(rp, "w").write(f"mirx lexlayout\n# {why[:500]}\n# native: {textn[:500]}\n")
+            r.update(status="violated", replay=rp, counterexample={"path": why[:500], "native": textn[:500]})
+        else:
+            r.update(status="inconclusive", reason=f"scan_token deviates from the reference ({why[:300]}) but every layout variant of the example program parses to the same program")
+        return r
+    return mp.XOb("X-scan_layout", statement, "", run)
+
+
+
 LAYOUT_BASE = '''def f(n: int) -> int:
     if n > 0:
         while n > 1:
@@ -440,4 +574,4 @@ def build(pid, tier, log_dir):
     import mirx_props as mp
     if pid != "C10":
         return []
-    return [indent_step_ob(mp, log_dir, tier), indent_count_ob(mp, log_dir, tier)]
+    return [indent_step_ob(mp, log_dir, tier), indent_count_ob(mp, log_dir, tier), scan_layout_ob(mp, log_dir, tier)]
